@@ -1,4 +1,5 @@
 import Copia.Gen.LoopsBidir
+import Copia.Lemmas.GenEqLoopsR
 /-!
 # `bidir.rs::apply` as translated from the source on this run = the model's `apply`
 
@@ -93,18 +94,36 @@ theorem loop_gen (ge : C → C → Bool) (cname : P → C → P) (a b : List (P 
       · simp only [Option.bind_some, if_true, bind]
         exact loop_gen ge cname a b f hf rest l'.A l'.B l'.common (n + 1)
 
-/-- the section of `run_bisync` from `let mut common = base;` to `arc.save(&apath)?;`, translated: retain the base
-entries of paths still present, apply the plan in order — stopping at the first failing action, BEFORE anything is
-recorded — and only then record the `common` map built along the way = the model's `applyAll` from the retained base -/
-theorem applyAndRecord_eq (ge : C → C → Bool) (cname : P → C → P) (a b base : List (P × Fp C))
-    (plan : List (P × Action)) (A B : Tree P C) :
-    Copia.Gen.Loops.applyAndRecord ge cname a b base plan (A, B) =
-      (applyAll ge cname a b plan
+/-- the section of `run_bisync` from `let plan = reconcile(…)` to `arc.save(&apath)?;`, translated, NOT a dry run:
+compute the plan, retain the base entries of paths still present, apply the plan in order — stopping at the first failing
+action, BEFORE anything is recorded — and only then record the `common` map built along the way = the model's `applyAll`
+of the model's plan from the retained base -/
+theorem applyAndRecord_eq (le : P → P → Bool) (ge : C → C → Bool) (cname : P → C → P) (a b base : List (P × Fp C))
+    (trust : Bool) (A B : Tree P C) :
+    Copia.Gen.Loops.applyAndRecord le ge cname a b base trust false (A, B) =
+      (applyAll ge cname a b (Copia.Reconcile.reconcile le a b base trust)
         { A := A, B := B, common := base.filter fun e => (lookup a e.1).isSome || (lookup b e.1).isSome } 0).map
         fun r => ((r.1.A, r.1.B), some r.1.common, r.2) := by
   unfold Copia.Gen.Loops.applyAndRecord
-  simp only [apply_eq, bind, pure]
+  simp only [apply_eq, bind, pure, Copia.GenEqLoops.reconcile_eq, Bool.false_eq_true, if_false]
   rw [loop_gen ge cname a b _ (fun _ _ => rfl)]
-  cases applyAll ge cname a b plan _ 0 <;> rfl
+  cases applyAll ge cname a b _ _ 0 <;> rfl
+
+theorem forIn_unit_option {α : Type} (l : List α) (f : α → PUnit → Option (ForInStep PUnit))
+    (hf : ∀ x u, f x u = some (ForInStep.yield PUnit.unit)) :
+    forIn l PUnit.unit f = some PUnit.unit := by
+  induction l with
+  | nil => rfl
+  | cons x xs ih => simp only [List.forIn_cons, hf, bind, Option.bind_some, ih]
+
+/-- the same section under `--dry-run`: the gate `if opts.dry_run { … return Ok(()); }` stands BEFORE the first action
+is applied and before `arc.save` — the trees are the ones it started from and nothing is recorded -/
+theorem applyAndRecord_dry (le : P → P → Bool) (ge : C → C → Bool) (cname : P → C → P) (a b base : List (P × Fp C))
+    (trust : Bool) (fs : FS P C) :
+    Copia.Gen.Loops.applyAndRecord le ge cname a b base trust true fs = some (fs, none, 0) := by
+  unfold Copia.Gen.Loops.applyAndRecord
+  simp only [bind, pure, if_true]
+  rw [forIn_unit_option _ _ (by intro x u; rfl)]
+  rfl
 
 end Copia.GenEqLoops
